@@ -995,6 +995,7 @@ class IntermediateCodeGen(AbstractCodeGen):
         self._out.clear()
         self._moduleIdentityOid = None
         self._moduleRevision = None
+        self.fakeidx = type(self).fakeidx
         self._enterpriseOid = None
         self._oids = set()
         self._complianceOids = []
